@@ -88,6 +88,18 @@ def dispatch(name, arg):
     return HANDLERS[name](arg)
 
 
+def definer(levels):
+    def leaf(v):  # held by definer's frame only; reaches its first call through a container, `levels` frames further down
+        return v
+    return descend(levels, [leaf])
+
+
+def descend(n, box):
+    if n:
+        return descend(n - 1, box)
+    return box[0](1)
+
+
 import functools  # noqa: E402
 
 
@@ -117,15 +129,16 @@ CALLS = {
     "f0": "M.f0(1)", "f1": "M.f1('s')", "f2": "M.f2({'a': 1, 'b': 2, 'c': 3})", "f3": "M.f3(4)", "K.m0": "M.K().m0(1)", "K.s0": "M.K.s0({'u': 1, 'v': 's'})",
     "K.c0": "list(M.K.c0(1))", "g0": "list(M.g0(2))", "late": "M.late(1)", "pipeline": "M.pipeline(1)",
     "hidden": "M.hidden(1)", "K2.hm": "M.K2().hm('s')", "dispatch": "M.dispatch('count', 2)",
-    "counted": "M.counted(1)", "cached_fn": "(M.cached_fn.cache_clear(), M.cached_fn(1))",
+    "counted": "M.counted(1)", "cached_fn": "(M.cached_fn.cache_clear(), M.cached_fn(1))", "definer": "M.definer(100)",
 }
 LAMBDA = "pipeline.<locals>.<lambda>"
 WRAPPER = "plain_deco.<locals>.w"
 HIDDEN, HM, COUNT = "hidden", "K2.hm", "make_counter.<locals>.count"
 # what runs (beyond the called name itself) when a CALLS entry is evaluated; "hidden" / "K2.hm" name the wrapper at module level, the
 # decorated function keeps its own qualified name
+LEAF = "definer.<locals>.leaf"
 ALSO_RUNS = {"pipeline": [LAMBDA], "hidden": [WRAPPER, "hidden:inner"], "K2.hm": [WRAPPER, "K2.hm:inner"], "dispatch": [COUNT],
-             "counted": ["CountCalls.__call__:code", "counted:inner"], "cached_fn": ["cached_fn:inner"]}
+             "counted": ["CountCalls.__call__:code", "counted:inner"], "cached_fn": ["cached_fn:inner"], "definer": ["descend", LEAF]}
 KS = [10, 3, 0, 2, 1, 0, 3, 10, 2]
 
 
@@ -166,6 +179,13 @@ def work(p):
             M, name = NS(), "__main__"
         else:
             M = importlib.import_module(name)
+        # the same source once more in another file: every function has a code-equal twin there, which the per-block filters reject
+        twin = None
+        if not case.get("main_ns"):
+            tpath = os.path.join(d, name + "_twin.py")
+            open(tpath, "w").write(SOURCE)
+            importlib.invalidate_caches()
+            twin = importlib.import_module(name + "_twin")
         quals = sorted(CALLS)
 
         class L(CallTraceLogger):
@@ -204,10 +224,11 @@ def work(p):
         lam_code = next(c for c in M.pipeline.__code__.co_consts if hasattr(c, "co_code"))
         special = {LAMBDA: lam_code, WRAPPER: M.hidden.__code__, "hidden:inner": M.hidden.__closure__[0].cell_contents.__code__,
                    "K2.hm:inner": M.K2.__dict__["hm"].__closure__[0].cell_contents.__code__, COUNT: M.HANDLERS["count"].__code__,
-                   "CountCalls.__call__:code": M.CountCalls.__call__.__code__, "counted:inner": M.counted.f.__code__, "cached_fn:inner": M.cached_fn.__wrapped__.__code__}
+                   "CountCalls.__call__:code": M.CountCalls.__call__.__code__, "counted:inner": M.counted.f.__code__, "cached_fn:inner": M.cached_fn.__wrapped__.__code__,
+                   LEAF: next(c for c in M.definer.__code__.co_consts if hasattr(c, "co_code") and c.co_name == "leaf"), "descend": M.descend.__code__}
         # qualified name under which a trace of that code is logged
         logged_as = {LAMBDA: LAMBDA, WRAPPER: WRAPPER, "hidden:inner": "hidden", "K2.hm:inner": "K2.hm", COUNT: COUNT,
-                     "CountCalls.__call__:code": "CountCalls.__call__", "counted:inner": "counted", "cached_fn:inner": "cached_fn"}
+                     "CountCalls.__call__:code": "CountCalls.__call__", "counted:inner": "counted", "cached_fn:inner": "cached_fn", LEAF: LEAF, "descend": "descend"}
         plain = [q for q in quals if q not in ("hidden", "K2.hm", "counted", "cached_fn")]  # (these names are bound to wrappers)
         for mode in case["modes"]:
             lg = L()
@@ -236,7 +257,19 @@ def work(p):
                 the_filter = (lambda code: code.co_filename == path) if accepted is None else flt
                 nested = mode == "nested-same-logger" and b % 2 == 1
 
+                def run_twin():
+                    for q in called:
+                        if q not in ("late",):
+                            eval(CALLS[q], {"M": twin})  # noqa: S307
+
                 def run_calls():
+                    if twin is not None and b % 2 == 0:
+                        run_twin()  # the rejected copy runs first ...
+                    _run_calls()
+                    if twin is not None and b % 2 == 1:
+                        run_twin()  # ... or last
+
+                def _run_calls():
                     for q in called:
                         if q == "late" and b == 0:
                             del M.late
@@ -267,6 +300,9 @@ def work(p):
                     r_.count("evaluations")
                     r_.count("session_blocks")
                 got = [t for bb, t in lg.logged if bb == b and getattr(t.func, "__module__", None) == name]
+                from_twin = sorted({t.func.__qualname__ for bb, t in lg.logged if bb == b and getattr(t.func, "__module__", None) == name + "_twin"})
+                if twin is not None:
+                    res17.count("session_blocks_with_a_rejected_code_equal_twin")
                 gotq = sorted({t.func.__qualname__ for t in got})
                 eff = {q for q in called if q in plain} | {x for q in called for x in ALSO_RUNS.get(q, ())}
                 want = sorted({logged_as.get(x, x) for x in (eff if accepted is None else eff & accepted)})
@@ -285,6 +321,8 @@ def work(p):
                 if case.get("main_ns"):
                     res17.count("session_blocks_over_script_namespace")
                 sfx = ":first-block" if b == 0 else ":later-block-of-a-session"
+                if from_twin:
+                    res17.violation("rejected-function-recorded:code-equal-twin-in-another-file", f"{mode}, block {b}: logged {from_twin} of the twin module, which the filter rejects", wit)
                 if rate in (None, 1):
                     res18.count("session_blocks_with_sampling_off")
                     if b and any(bl[3] not in (None, 1) for bl in blocks[:b]):
@@ -305,6 +343,8 @@ def work(p):
                         res17.count("function_behind_plain_closure_decorator_judgements")
                     if COUNT in want:
                         res17.count("self_referential_nested_function_judgements")
+                    if LEAF in want:
+                        res17.count("closure_held_100_frames_up_judgements")
                     if "counted" in want or "cached_fn" in want:
                         res17.count("function_behind_a_non_function_wrapper_judgements")
                 else:
@@ -329,6 +369,7 @@ def work(p):
             if lg.flushes != nflush:
                 res17.violation("flush-count:session", f"{mode}: {lg.flushes} flushes for {nflush} block exits", {"case": case, "mode": mode})
         sys.modules.pop(modname, None)
+        sys.modules.pop(modname + "_twin", None)
         os.remove(path)
     sys.path.remove(d)
     shutil.rmtree(d, ignore_errors=True)
